@@ -706,7 +706,7 @@ impl Prop for C08 {
         // character, a letter, a sign; every prefix of the string; as value and as DEFAULT (the generator slices these strings)
         let times: [(&str, &str); 6] = [("GeneralizedTime", "2020010112+0130"), ("GeneralizedTime", "20200101120000.5-0530"), ("GeneralizedTime", "202001011200Z"), ("UTCTime", "200101011200Z"), ("UTCTime", "2001010112+0100"), ("UTCTime", "200101011200-0545")];
         for (ti, (ty, base)) in times.iter().enumerate() {
-            if !tier.thorough() && ti % 2 == 1 {
+            if !tier.thorough() && ti % 3 != 0 {
                 continue; // quick: one string per shape (offset with minutes, fraction + offset, UTCTime Z)
             }
             let chars: Vec<char> = base.chars().collect();
